@@ -52,7 +52,7 @@ CLAIMED = {
    text="EquivalencyComputer on every labelled digraph with <=4 arguments and all 7.1 M labelled 5-argument digraphs with <=10 attacks (thorough: all 33.5 M) and every isomorphism class of the 6-argument digraphs with <=7 (8) attacks in three numberings, in compact, duplicate-attack and reversed-insertion-order presentation: every pair of merged arguments compared on ALL complete extensions; partition, totality, inverse mappings, reduced labels.",
    note="soundness of merging only; nothing demanded about coarseness", ref="4 C19"),
  "C05": dict(engine="E5 process sweep", technique="exhaustive enumeration of command-line invocations as real processes, judged by the reference model",
-   text="Every (instance file, problem, argument, option configuration) of a finite product is run as a real process of crustabri solve and crustabri_iccma23: thorough = U(<=2) x 21 problems x arguments x 3 reader settings x 4 encodings x certificate x logging, all 104 classes of U(3) and S with a reduced product (~85 k processes); quick = the same product on <=1 argument, reduced on 2 arguments, minimal on 6 three-argument classes, chains and 2 members of S, each also through --external-sat-solver with a stand-in backend reporting the smallest / largest model (~7.6 k processes). stdout parsed with the answer grammar and judged semantically; 296 malformed invocations of 40 classes must exit non-zero without any answer line; the --problems listing must be exactly the 21 accepted problems (three spellings).",
+   text="Every (instance file, problem, argument, option configuration) of a finite product is run as a real process of crustabri solve and crustabri_iccma23: thorough = U(<=2) x 21 problems x arguments x 3 reader settings x 4 encodings x certificate x logging, all 104 classes of U(3) and S with a reduced product (~85 k processes); quick = the same product on <=1 argument, reduced on 2 arguments, minimal on 6 three-argument classes, chains and 2 members of S, each also through --external-sat-solver with a stand-in backend reporting the smallest / largest model, plus 3 (thorough 7) structured instances of 1000-1500 arguments in both formats whose printed witnesses are verified directly and whose statuses are compared with the library called in-process (~7.8 k processes). stdout parsed with the answer grammar and judged semantically; 296 malformed invocations of 40 classes must exit non-zero without any answer line; the --problems listing must be exactly the 21 accepted problems (three spellings).",
    note="each process costs ~65 ms (the binaries scan /proc at start-up), which bounds the quick tier", ref="4 C05, 2.5"),
  "C06": dict(engine="E1+E2+E5", technique="exhaustive configuration matrix over the oracle choice tree + bounded exploration of query sequences on one solver object",
    text="(a) for every framework with <=3 arguments (plus duplicate-attack presentations and the hybrid-threshold members of S), problem and argument, the statuses of ALL cells {encoders} x {CaDiCaL, every leaf of the complete oracle choice tree} x {certificate flag} must coincide (no reference), external-process cells judged against the reference; (b) every sequence of <=3 queries (U(<=2)) / 2 queries (U(3), S) on ONE solver object per (solver type, encoder): same status as a fresh object, valid answer, framework state byte-identical afterwards.",
